@@ -1,6 +1,6 @@
 (* C13 — A finished transaction is finished: later use fails and changes nothing. *)
 From Coq Require Import List NArith Bool.
-From FsDb Require Import VList Core Spec CoreInv Refine SpecProps.
+From FsDb Require Import VList Core Spec CoreInv Refine SpecProps Client.
 Import ListNotations.
 Open Scope N_scope.
 
@@ -9,7 +9,7 @@ Open Scope N_scope.
    Rollback fails with ErrTxNotFound, Rollback is a no-op, and the state does not change *)
 Theorem C13_late_ops_fail_and_change_nothing :
   forall a h, h <> 0 -> aopen_find a h = None ->
-    (forall k v, k <> 0 -> astep a (OSet h k v) = (a, OutErr ETxNotFound)) /\
+    (forall k v, astep a (OSet h k v) = (a, OutErr ETxNotFound)) /\
     (forall k, astep a (ODel h k) = (a, OutErr ETxNotFound)) /\
     (forall k, astep a (OGet h k) = (a, OutErr ETxNotFound)) /\
     astep a (OKeys h) = (a, OutErr ETxNotFound) /\
@@ -52,9 +52,10 @@ Theorem C13_late_reads_commit_rollback_partial :
   forall ops, no_late_writes ops = true -> has_reopen ops = false -> mrun ops = arun ops.
 Proof. exact model_refines_spec. Qed.
 
-(* the full statement is false of the faithful model (genuine defect D7): a Set through a
-   committed transaction succeeds and a ReadUncommitted transaction sees it *)
-Theorem C13_late_write_refuted :
+(* the full statement was false of the code before its repair (genuine defect D7, fixed by a fix: commit): at the
+   use-case layer (mstep, what the server does) a Set through a committed transaction succeeds and a ReadUncommitted
+   transaction sees it.  Kept as the witness; the handle now refuses the write itself (Client.cstep, below) *)
+Theorem C13_late_write_refuted_orig :
   exists ops, has_reopen ops = false /\ mrun ops <> arun ops /\
               mrun ops = [OutHandle 1; OutUnit; OutUnit; OutHandle 2; OutUnit; OutVal 2] /\
               arun ops = [OutHandle 1; OutUnit; OutUnit; OutHandle 2; OutErr ETxNotFound; OutVal 1].
@@ -78,8 +79,22 @@ Example C13_nonvacuous :
               OutHandle 2; OutUnit; OutUnit; OutErr ETxSerialization; OutErr ETxNotFound; OutVal 5].
 Proof. vm_compute. repeat split. Qed.
 
+(* with the handle's own guard (the repaired code): every sequential history whatsoever - operations through open,
+   ended or never issued handles at all four levels, collections, drains, Close/Open at any position - behaves as the
+   abstract machine does; no hypothesis about late writes is left *)
+Theorem C13_every_history_refines :
+  forall ops, crun ops = arun ops.
+Proof. exact client_refines_spec. Qed.
+
+(* the witness history of D7 on the repaired layer: the late Set fails and the ReadUncommitted reader sees the old value *)
+Example C13_late_write_refused :
+  crun [OBegin RC; OSet 1 1 1; OCommit 1; OBegin RU; OSet 1 1 2; OGet 2 1] =
+  [OutHandle 1; OutUnit; OutUnit; OutHandle 2; OutErr ETxNotFound; OutVal 1].
+Proof. vm_compute. reflexivity. Qed.
+
 Print Assumptions C13_late_ops_fail_and_change_nothing.
 Print Assumptions C13_ended_is_not_open.
 Print Assumptions C13_late_reads_commit_rollback_partial.
-Print Assumptions C13_late_write_refuted.
+Print Assumptions C13_late_write_refuted_orig.
 Print Assumptions C13_begin_fresh.
+Print Assumptions C13_every_history_refines.
